@@ -14,12 +14,14 @@ BATCHES = {
         ("did", 6, 120, {}),
         ("scarce", 8, 90, {}),
         ("super", 8, 100, {}),
+        ("version", 8, 100, {}),
     ],
     "thorough": [
         ("reward", 60, 120, {}),
         ("did", 60, 200, {}),
         ("scarce", 80, 140, {}),
         ("super", 80, 160, {}),
+        ("version", 80, 160, {}),
         ("pay", 60, 140, {}),
         ("life", 80, 140, {}),
         ("auth", 80, 140, {}),
